@@ -133,7 +133,7 @@ fn schedules(calls: usize, bound: usize, bursts: &[u8]) -> Vec<Sched> {
 
 /// Judges to try on a stream of length n.
 fn judges(n: usize, all_limits: bool) -> Vec<Judge> {
-    let mut v = vec![Judge::Std(usize::MAX, None), Judge::Std(1, None), Judge::Std(0, None), Judge::SkipFirst];
+    let mut v = vec![Judge::Std(usize::MAX, None), Judge::Std(1, None), Judge::Std(0, None), Judge::SkipFirst, Judge::SkipBelow(1), Judge::SkipBelow(3), Judge::SkipBelow(n as u64)];
     if all_limits {
         for l in 0..=n as u64 + 1 {
             v.push(Judge::Std(usize::MAX, Some(l)));
@@ -223,7 +223,7 @@ fn all_streams(ctx: &Ctx, rep: &mut Report, mode: Mode, unit: &mut usize) {
     }
     rep.max_depth = rep.max_depth.max(len_full as u64);
     rep.note(format!(
-        "family (i): ALL streams over {:02X?} up to length {} x block sizes {:?} (+ default 512 KiB for length <= 4) x reader schedules: full, always-1, always-2, alternate-1/3, and every single deviation (1-byte read, or a burst of 1 / 3 / 40 EINTRs) at every reader call for length <= {} (every pair of deviations for length <= 4 in the thorough tier) x judges: (inf, none), (1, none), (0, none), skip-first, and (inf, L) for every L <= len+1",
+        "family (i): ALL streams over {:02X?} up to length {} x block sizes {:?} (+ default 512 KiB for length <= 4) x reader schedules: full, always-1, always-2, alternate-1/3, and every single deviation (1-byte read, or a burst of 1 / 3 / 40 EINTRs) at every reader call for length <= {} (every pair of deviations for length <= 4 in the thorough tier) x judges: (inf, none), (1, none), (0, none), skip-first, skip-below-offset L in {{1, 3, len}}, and (inf, L) for every L <= len+1",
         ALPHA, len_full, BLOCKS, len_dev
     ));
 }
@@ -513,7 +513,7 @@ fn main() {
         replay,
         assumptions: |_| vec![
             "hard I/O errors are outside the enumerated schedules (DESIGN observation O1)".into(),
-            "custom judges only return SkipRecord for a non-empty range".into(),
+            "custom judges: skip-first (SkipRecord once, for a non-empty range) and skip-below-offset (SkipRecord whenever range.start < L, also for the empty range reported after a delimiter)".into(),
             "reference record list uses the reference decoder of mc_core::refcodec at production limits".into(),
         ],
     });
